@@ -4,7 +4,8 @@
 // callee's postcondition; the postcondition is asserted at the exit of the callee's own harness.
 //   pre(parseValue):  content == buffer, length == |buffer|, offset <  length
 //   pre(parseObject/parseArray):                         offset <= length
-//   post(parse*):     offset' > offset          (progress => termination; no upper bound needed by any caller)
+//   post(parseValue): offset' > offset ; post(parseObject/parseArray): offset' >= offset   (parseValue consumes the opening
+//                     bracket before it calls them, so every parseValue call makes progress => termination)
 //   pre(UnEscape(p, n)): [p, p+n) inside the buffer ;  post: result <= n
 //   pre(stringToNumber): offset < end == |buffer| ;    post: offset <= offset' <= end, and offset' > offset unless NotANumber
 #define private public
@@ -35,7 +36,7 @@ extern "C" void stub_container(V *out, SS *s, const C *c, unsigned *off, unsigne
     vf_assert(c == g_buf && len == g_len, 22);
     vf_assert(*off <= len, 23);
     any_value(out);
-    unsigned o = vf_u32(); vf_assume(o > *off && o < 0xFFFFFF00u); *off = o;
+    unsigned o = vf_u32(); vf_assume(o >= *off && o < 0xFFFFFF00u); *off = o;
 }
 extern "C" unsigned stub_unescape(const C *content, unsigned length, SS *stream) {
     vf_assert(content >= g_buf && content <= g_buf + g_len, 30);
@@ -72,14 +73,14 @@ extern "C" void h_array() {                    // parseArray; parseValue under c
     const C *b = mkbuf(); SS stream;
     unsigned off = vf_u32(); vf_assume(off <= L); unsigned in = off;
     V v = PR::parseArray(stream, b, off, SizeT(L));
-    vf_assert(off > in, 3);
+    vf_assert(off >= in, 3);
     vf_witness();
 }
 extern "C" void h_object() {                   // parseObject; parseValue and UnEscape under contract
     const C *b = mkbuf(); SS stream;
     unsigned off = vf_u32(); vf_assume(off <= L); unsigned in = off;
     V v = PR::parseObject(stream, b, off, SizeT(L));
-    vf_assert(off > in, 4);
+    vf_assert(off >= in, 4);
     vf_witness();
 }
 extern "C" void h_unescape() {                 // the real un-escaper on an arbitrary slice [off, L)
